@@ -165,7 +165,7 @@ func parseTotal(src string) (problem string) {
 
 func checkC09(r *kit.Run) {
 	r.Assumptions = []string{
-		"strings / byte sequences: every sequence of <= L symbols of the 18-symbol alphabet of CueLiteral.tla (quotes, backslash, #, LF, CR, TAB, '(', the letters n u x a, é, 😀, NUL, DEL, a validly encoded U+FFFD, 0xFF for bytes) x the 48 quoting forms; candidate literal texts over { \" \\ n a # LF } up to length 7 (thorough 8); token soups of up to 3 (thorough 4) tokens from the 36-token alphabet of CueTokens.tla",
+		"strings / byte sequences: every sequence of <= L symbols of the 18-symbol alphabet of CueLiteral.tla (quotes, backslash, #, LF, CR, TAB, '(', the letters n u x a, é, 😀, NUL, DEL, a validly encoded U+FFFD, 0xFF for bytes) x the 48 quoting forms; candidate literal texts over { \" \\ n a # LF } up to length 6 (thorough 7); token soups of up to 3 (thorough 4) tokens from the 36-token alphabet of CueTokens.tla",
 		"arbitrary byte strings are not enumerated (see DESIGN.md): totality is claimed for the grammar-shaped soups only",
 	}
 	// ---- 1. quoting round trip ----
@@ -236,7 +236,7 @@ func checkC09(r *kit.Run) {
 	}
 
 	// ---- 2. literal validity: spec recogniser vs scanner, parser, Unquote ----
-	lv := kit.Pick(r, 6, 8)
+	lv := kit.Pick(r, 6, 7)
 	res2, err := kit.RunTLC(kit.TLCOpts{Module: "CueLiteral", CfgText: fmt.Sprintf("INIT Init\nNEXT Next\nCONSTANTS Mode = \"valid\" L = %d\nINVARIANT LitShape\n", lv), Dump: true, Timeout: 40 * time.Minute, Heap: "24g"})
 	if err != nil || res2.TimedOut || !res2.OK() {
 		out := res2.Tail(30)
@@ -284,7 +284,7 @@ func checkC09(r *kit.Run) {
 
 	// ---- 3. token soups ----
 	lt := kit.Pick(r, 3, 4)
-	res3, err := kit.RunTLC(kit.TLCOpts{Module: "CueTokens", CfgText: fmt.Sprintf("INIT Init\nNEXT Next\nCONSTANT L = %d\n", lt), Dump: true, Timeout: 40 * time.Minute, Heap: "24g"})
+	res3, err := kit.RunTLC(kit.TLCOpts{Module: "CueTokens", CfgText: fmt.Sprintf("INIT Init\nNEXT Next\nCONSTANT L = %d\n", lt), Dump: true, Timeout: 40 * time.Minute, Heap: "24g", MaxSetSize: 4000000})
 	if err != nil || res3.TimedOut || !res3.OK() {
 		out := res3.Tail(30)
 		res3.Cleanup()
